@@ -148,14 +148,19 @@ class Model:
         self.sessions = {}
         self.live = {}        # (src, key) -> deadline or None (infinite)
         self.last_offer = {}  # (src, key) -> step index of the most recent offer since the last withdrawal
+        self.recent = {}      # (src, key) -> deadlines of dropped finite entries (for the exact-RES rounding case)
 
     def drop(self, p):
-        self.live.pop(p, None)
+        d = self.live.pop(p, None)
+        if d is not None:
+            self.recent.setdefault(p, []).append(d)
         self.last_offer.pop(p, None)
 
     def expire(self, now):
         for p, d in list(self.live.items()):
-            if d is not None and d - now < RES:
+            # 0.99: at virtual times around 0xFFFFFF s one ulp is 0.2 % of RES; a deadline exactly RES away is left to the
+            # next idle point (the checks below skip entries inside the 2 RES window)
+            if d is not None and d - now < 0.99 * RES:
                 self.drop(p)
 
     def message(self, idx, now, src, mc, flag, sid, entries, unicast):
@@ -212,6 +217,8 @@ def run_case(case):
                     if ll != l or kind != "offered":
                         continue
                     d = model.live.get((src, key), "gone")
+                    if d == "gone" and any(abs(x - now) < 1.02 * RES for x in model.recent.get((src, key), ())):
+                        continue   # its deadline is exactly one clock resolution away: rounding decides whether it fired
                     if d == "gone":
                         require(False, "C05.stale-offered",
                                 f"listener L{l}'s latest notification for {key} from {src} is 'offered' at idle t={now:.6f}, but the source's offer is not live (withdrawn, rebooted, expired or connection lost)")
